@@ -7,7 +7,7 @@ Not asserted: that a given buffer type is accepted at all (a refusal by exceptio
 memoryview of them), anything about Cell.to_boc / from_boc / Address themselves (they only appear as earlier history), speed.
 """
 from hypothesis import strategies as st
-from harness.core import Sub, Fail
+from harness.core import overlapped, Sub, Fail
 from harness.ref import refcrc
 
 RULE = ('cases are byte strings (hex). exhaustive sub-check: every string of length 0,1,2 (65 793); generated: '
@@ -699,3 +699,5 @@ SUBCHECKS = [
         nontrivial=lambda c: any(s['op'] != 'crc' for s in c['steps']), n=(200, 6000), shards=(8, 16),
         note='programs of 1..4 ordinary library calls that use the checksums internally, then the checksum functions on the strings involved'),
 ]
+
+SUBCHECKS.append(overlapped(next(s for s in SUBCHECKS if s.name == 'random'), k=4, n=(240, 6000)))
